@@ -121,8 +121,11 @@ func c10Run(raw json.RawMessage) (res Result, err error) {
 	jan1 := time.Date(year, 1, 1, 0, 0, 0, 0, time.UTC)
 	base := io.IndexToTimeDepr(in.Index, in.IPD, year)
 	obs := c10Obs{Base: base.Unix() - jan1.Unix()}
-	obs.Ticks = io.GetIntervalTicks32Bit(base.Add(time.Duration(in.Off)), in.Index, in.IPD)
-	obs.Ticks2 = io.GetIntervalTicks32Bit(base.Add(time.Duration(in.Off2)), in.Index, in.IPD)
+	// the timestamp is built from the interval start computed HERE with integers (January 1st + (index-1) * interval), not
+	// from the implementation's IndexToTimeDepr, so a wrong base time inside GetIntervalTicks32Bit shows up in the ticks
+	start := jan1.Add(time.Duration(in.Index-1) * (utils.Day / time.Duration(in.IPD)))
+	obs.Ticks = io.GetIntervalTicks32Bit(start.Add(time.Duration(in.Off)), in.Index, in.IPD)
+	obs.Ticks2 = io.GetIntervalTicks32Bit(start.Add(time.Duration(in.Off2)), in.Index, in.IPD)
 	obs.Sec, obs.Ns = executor.GetTimeFromTicks(in.Start, uint32(in.IPD), obs.Ticks)
 	obs.RSec, obs.RNs = executor.GetTimeFromTicks(in.Start, uint32(in.IPD), in.Raw)
 	res.Obs = obs
@@ -149,6 +152,9 @@ func c10Run(raw json.RawMessage) (res Result, err error) {
 			if res.Holds {
 				res.Holds, res.Class, res.Detail = false, cl, fmt.Sprintf(f, a...)
 			}
+		}
+		if obs.Base != (in.Index-1)*(86400/in.IPD) {
+			fail("", "IndexToTimeDepr(%d, %d) is %d s after January 1st, the interval starts at %d s", in.Index, in.IPD, obs.Base, (in.Index-1)*(86400/in.IPD))
 		}
 		if (in.Off <= in.Off2 && obs.Ticks > obs.Ticks2) || (in.Off2 <= in.Off && obs.Ticks2 > obs.Ticks) {
 			fail("", "order not preserved: offsets %d,%d -> ticks %d,%d", in.Off, in.Off2, obs.Ticks, obs.Ticks2)
